@@ -97,6 +97,18 @@ def l1_oracle(pid, p, impl_lines, run, desc):
                 if d.get("wrapper %s schema" % wn) != "any_of:" + want:
                     run.oracle_fail("the schema of %s is `%s`; expected any_of over the parts %s" % (wn, d.get("wrapper %s schema" % wn), want), desc)
     if pid == "C15":
+        # the alias through which every generated user of a message type names it (ContractApi / InterfaceMessagesApi) must
+        # supply exactly the parameters the type declares, in the same order - otherwise the expansion does not type-check
+        # (or, worse, silently swaps two parameters of the same bounds) as soon as first-use order differs from declaration order
+        for assoc, tn in (("Exec", "enum %sExecMsg" % prefix), ("Query", "enum %sQueryMsg" % prefix), ("Sudo", "enum %sSudoMsg" % prefix),
+                          ("Instantiate", "struct InstantiateMsg"), ("Migrate", "struct MigrateMsg")):
+            alias, declared = d.get("api " + assoc), d.get(tn + " generics")
+            if alias is None or declared is None or alias.startswith("?"):
+                continue
+            _, _, aargs = alias.partition(":")
+            if aargs != declared:
+                run.oracle_fail("the %s alias names %s with parameters <%s>, the type is declared with <%s>" % (
+                    assoc, tn.split()[1], aargs, declared), desc)
         gens = list(p.generics) if is_c else [n for n, _ in p.assoc if n != "Error"]
         for kind, base in (("exec", "ExecMsg"), ("query", "QueryMsg"), ("sudo", "SudoMsg"), ("instantiate", "InstantiateMsg"), ("migrate", "MigrateMsg")):
             if not is_c and kind in ("instantiate", "migrate"):
